@@ -70,7 +70,12 @@ func specEncValid(e *Encoding, fitsSigned8 bool) bool {
 
 //@ func isSignExtendable
 //@ props C18
-//@ ensures[set] result0 == (opcode == "ADD" || opcode == "ADC" || opcode == "SUB" || opcode == "SBB" || opcode == "CMP" || opcode == "AND" || opcode == "OR" || opcode == "XOR") || !specIsUpper(opcode)
+//@ ensures[set] result0 == specALUGroup(strings.ToUpper(opcode))
+
+// specALUGroup: the mnemonics that have the sign-extended imm8 form 83 /digit ib.
+func specALUGroup(m string) bool {
+	return m == "ADD" || m == "ADC" || m == "SUB" || m == "SBB" || m == "CMP" || m == "AND" || m == "OR" || m == "XOR"
+}
 
 // specIsUpper: the mnemonic is already upper case (pass 1 and codegen pass upper-case names).
 func specIsUpper(s string) bool { return strings.ToUpper(s) == s }
